@@ -157,6 +157,20 @@ def mon_c05_published(world, kind):
                         'stored': ident})
         if ident is not None:
             seen.setdefault((app.identity_group, ident), []).append(a)
+    # against the ZooKeeper truth: the group's count as stored by the admin
+    tree = world.tree
+    if not world.undelivered:
+        for (g, ident), apps in seen.items():
+            node = tree.find(z.path.identity_group(g))
+            count = 0
+            if node is not None and node.data:
+                count = (json.loads(node.data.decode()) or {}).get('count', 0)
+            if ident >= count:
+                world.flag('published-identity-beyond-stored-count',
+                           'Master.' + kind,
+                           {'group': g, 'identity': ident,
+                            'stored_count': count,
+                            'apps': [world.tmpl[x] for x in apps]})
     for (g, ident), apps in seen.items():
         if len(apps) > 1:
             world.flag('published-identity-duplicate', 'Master.' + kind,
